@@ -343,4 +343,33 @@ theorem compatible_sound (d : CmdDesc) (s : Cdb) (L : Nat) (hc : compatible d s 
     rw [hget] at hget'; cases hget'
     exact ⟨g, hg_mem, by omega, by omega⟩
 
+/-- the CDB a compatible constructor builds is a byte string (every element below 256) -/
+theorem compatible_bytesOK (d : CmdDesc) (s : Cdb) (L : Nat) (hc : compatible d s L = true)
+    (op : OpCode) (hL : initCdbLen op.value = .ok L) (args : Env) (c : Command)
+    (hb : build d op args = .ok c) (env : Env) (henv : bindArgs args d.params = .ok env)
+    (hr : ArgsInRange s op env c.dataout) : BytesOK c.cdb := by
+  obtain ⟨env', L', dict, h1, h2, hdo, hw, henc⟩ := build_spec d op args c hb
+  rw [henv] at h1; cases h1
+  rw [hL] at h2; cases h2
+  unfold compatible at hc
+  simp only [Bool.and_eq_true, List.all_eq_true, List.any_eq_true] at hc
+  obtain ⟨⟨⟨hwf, hkeys⟩, hall⟩, hstd⟩ := hc
+  obtain ⟨s1, s2, s3⟩ := evalWiring_spec op env d.wiring dict hw
+  have hin : InRange d.layout dict := by
+    intro kv hkv m off hg
+    obtain ⟨e, pv, hm, he, htv⟩ := s1 kv hkv
+    obtain ⟨g, hg_mem, hcomp⟩ := hall (kv.1, e) hm
+    unfold entryCompat at hcomp
+    simp only [Bool.and_eq_true] at hcomp
+    obtain ⟨m', off', hg', _, hwd⟩ := fieldCompat_spec hcomp.1
+    rw [hg] at hg'; cases hg'
+    obtain ⟨v, hv, hlt⟩ := hr g hg_mem
+    have := eval_src d op env c.dataout e g.src pv hcomp.2 he hdo v hv
+    rw [htv] at this
+    have hk : kv.2 = .int v := Except.ok.inj this
+    exact ⟨v, hk, by rw [hwd]; exact hlt⟩
+  obtain ⟨r, e1, ok1, len1, nat1⟩ := encodeDict_terms d.layout L hwf dict hin (zeros L) (BytesOK_zeros L) (by simp [zeros])
+  rw [henc] at e1; cases e1
+  exact ok1
+
 end Compat
